@@ -89,6 +89,8 @@ def check_loads(build_binary, arpa, scratch, idx):
         out = os.path.join(scratch, "b%d_%d.bin" % (idx, j))
         cmd = ["timeout", "60", build_binary, "-S", "10M", "-T", scratch.rstrip("/") + "/"] + opts + [kind, arpa, out]
         rc, o, e = vlib.sh(cmd, timeout=90)
+        if rc in (126, 127) and "failed to run command" in e:
+            raise vlib.InfraError("cannot execute %s (concurrent rebuild?): %s" % (build_binary, e.strip()[-200:]))
         try:
             os.remove(out)
         except OSError:
